@@ -69,6 +69,10 @@ pub struct Net {
     pub server: bool,
     /// order in which h3 opened its streams
     pub opened: Vec<u64>,
+    /// datagrams from the peer not yet read / datagrams h3 sent
+    pub dgram_rx: VecDeque<Bytes>,
+    pub dgram_rx_waker: Option<Waker>,
+    pub dgram_tx: Vec<Vec<u8>>,
 }
 pub type NetRef = Rc<RefCell<Net>>;
 
@@ -153,6 +157,11 @@ impl Net {
             wake(&mut s.rx_waker);
             wake(&mut s.tx_waker);
         }
+        wake(&mut self.dgram_rx_waker);
+    }
+    pub fn peer_datagram(&mut self, b: Bytes) {
+        self.dgram_rx.push_back(b);
+        wake(&mut self.dgram_rx_waker);
     }
     pub fn tx(&self, id: u64) -> Vec<u8> {
         self.streams.get(&id).map(|s| s.tx.clone()).unwrap_or_default()
@@ -387,6 +396,100 @@ impl quic::BidiStream<Bytes> for SimStream {
     type RecvStream = SimStream;
     fn split(self) -> (SimStream, SimStream) {
         (SimStream { net: self.net.clone(), id: self.id }, self)
+    }
+}
+
+impl quic::SendStreamUnframed<Bytes> for SimStream {
+    fn poll_send<D: Buf>(&mut self, cx: &mut Context<'_>, buf: &mut D) -> Poll<Result<usize, StreamErrorIncoming>> {
+        if let Some(e) = conn_err(&self.net) {
+            return Poll::Ready(Err(StreamErrorIncoming::ConnectionErrorIncoming { connection_error: e }));
+        }
+        let mut n = self.net.borrow_mut();
+        let s = n.streams.get_mut(&self.id).expect("stream");
+        if let Some(c) = s.peer_stopped {
+            return Poll::Ready(Err(StreamErrorIncoming::StreamTerminated { error_code: c }));
+        }
+        if s.writing.is_some() {
+            s.tx_overlap = true;
+        }
+        if !buf.has_remaining() {
+            return Poll::Ready(Ok(0));
+        }
+        if s.tx_credit == 0 {
+            s.tx_waker = Some(cx.waker().clone());
+            return Poll::Pending;
+        }
+        let c = buf.chunk();
+        let k = c.len().min(s.tx_credit);
+        if s.tx_fin || s.tx_reset.is_some() {
+            s.tx_misuse = true;
+        }
+        s.tx.extend_from_slice(&c[..k]);
+        s.accepted.push(k);
+        if s.tx_credit != UNLIMITED {
+            s.tx_credit -= k;
+        }
+        buf.advance(k);
+        Poll::Ready(Ok(k))
+    }
+}
+
+// ---------------------------------------------------------------- datagrams (h3-datagram traits)
+
+pub struct SimDgramSend {
+    net: NetRef,
+}
+pub struct SimDgramRecv {
+    net: NetRef,
+}
+
+impl h3_datagram::quic_traits::SendDatagram<Bytes> for SimDgramSend {
+    fn send_datagram<T: Into<h3_datagram::datagram::EncodedDatagram<Bytes>>>(
+        &mut self,
+        data: T,
+    ) -> Result<(), h3_datagram::quic_traits::SendDatagramErrorIncoming> {
+        if let Some(e) = conn_err(&self.net) {
+            return Err(h3_datagram::quic_traits::SendDatagramErrorIncoming::ConnectionError(e));
+        }
+        let mut buf: h3_datagram::datagram::EncodedDatagram<Bytes> = data.into();
+        // consume through chunk/advance, one chunk at a time (not copy_to_bytes)
+        let mut out = Vec::new();
+        while buf.has_remaining() {
+            let c = buf.chunk();
+            let n = c.len();
+            out.extend_from_slice(c);
+            buf.advance(n);
+        }
+        self.net.borrow_mut().dgram_tx.push(out);
+        Ok(())
+    }
+}
+
+impl h3_datagram::quic_traits::RecvDatagram for SimDgramRecv {
+    type Buffer = Bytes;
+    fn poll_incoming_datagram(&mut self, cx: &mut Context<'_>) -> Poll<Result<Bytes, ConnectionErrorIncoming>> {
+        if let Some(e) = conn_err(&self.net) {
+            return Poll::Ready(Err(e));
+        }
+        let mut n = self.net.borrow_mut();
+        match n.dgram_rx.pop_front() {
+            Some(b) => Poll::Ready(Ok(b)),
+            None => {
+                n.dgram_rx_waker = Some(cx.waker().clone());
+                Poll::Pending
+            }
+        }
+    }
+}
+
+impl h3_datagram::quic_traits::DatagramConnectionExt<Bytes> for SimConn {
+    type SendDatagramHandler = SimDgramSend;
+    type RecvDatagramHandler = SimDgramRecv;
+    fn send_datagram_handler(&self) -> SimDgramSend {
+        SimDgramSend { net: self.net.clone() }
+    }
+    fn recv_datagram_handler(&self) -> SimDgramRecv {
+        SimDgramRecv { net: self.net.clone() }
     }
 }
 
